@@ -61,6 +61,9 @@ static inline struct vs_ostream *vs_os_cstr(struct vs_ostream *os, const char *p
 struct vs_cookie { size_t idx; struct vs_cstr name, value; };
 size_t g_ncookies, g_nheaders; struct vs_cookie vs_cookie_slot;
 static inline struct vs_cookie *vs_cookie_at(size_t i) { vs_cookie_slot.idx = i; return &vs_cookie_slot; }
+/* CookieJar::iterator::operator++(int) as it is (unit jariter / MANIFEST C17): the iterator moves on, but the position handed back is the
+   FIRST cookie of the current name, which is the old position only when the name holds one cookie */
+static inline size_t vs_jar_postinc(size_t *it) { size_t old = *it, j; ++*it; __CPROVER_assume(j <= old); return j; }
 /* a std::string is inserted: the name / value of the cookie currently handed out is recorded as such, any other string by its characters */
 static inline struct vs_ostream *vs_os_str(struct vs_ostream *os, const struct vs_cstr *s)
 {
@@ -167,6 +170,7 @@ STUBS.update({
     # CookieJar iteration (assumed: visits every stored cookie exactly once, C17): index based
     'Pistache::Http::CookieJar::begin': {'expr': '((size_t)0)'}, 'Pistache::Http::CookieJar::end': {'expr': '(g_ncookies)'},
     'Pistache::Http::CookieJar::iterator::operator!=': {'expr': '(*($this) != ($0))'}, 'Pistache::Http::CookieJar::iterator::operator++/0': {'expr': '(++(*($this)))'},
+    'Pistache::Http::CookieJar::iterator::operator++/1': {'expr': 'vs_jar_postinc($this)'}, 'operator++|Pistache::Http::CookieJar::iterator,int': {'expr': 'vs_jar_postinc(&($0))'},
     'Pistache::Http::CookieJar::iterator::operator*': {'expr': '(*vs_cookie_at(*($this)))'},
     'operator!=|Pistache::Http::CookieJar::iterator,Pistache::Http::CookieJar::iterator': {'expr': '(($0) != ($1))'}, 'operator++|Pistache::Http::CookieJar::iterator': {'expr': '(++($0))'}, 'operator*|Pistache::Http::CookieJar::iterator': {'expr': '(*vs_cookie_at($0))'},
     'operator<<|std::ostream,std::basic_ostream<char, char_traits<char>>&(*)(std::basic_ostream<char, char_traits<char>>&)': {'expr': '(*($1)(&($0)))'},
